@@ -236,3 +236,48 @@ for _p, _o in (('>', 0), ('<>', 5), ('', 'b'), ('<=', -2.5)):
         cases=[Case('COUNTIF = the number of cells of the column for which the criterion holds', lambda *a: True,
                     (lambda p, o: lambda a, b, c, out: spec.numeric_result(out, _count([crit_holds(x, p, o) for x in (a, b, c)])))(_p, _o))],
         call=countif_call(False, f'{_p}{_o}'), native_call=countif_call(True, f'{_p}{_o}'), bounded_domain_cap=500))
+
+
+# ---- COUNTIFS: several criteria are combined conjunctively, position by position ----------------------------------------------------------------
+def countifs_call(native, crits, nrows):
+    def call(it, fn, *cells):
+        t = T()
+        n = len(crits)
+        cols = [t.Array([[cells[r * n + k]] for r in range(nrows)]) for k in range(n)]
+        args = []
+        for k in range(n):
+            args += [cols[k], crits[k]]
+        return fn(*args) if native else it.call(fn, args, {})
+    if native:
+        return lambda fn, *v: call(None, fn, *v)
+    return call
+
+
+def countifs_ens(crits, nrows):
+    parsed = []
+    for c_ in crits:
+        for pfx in ('<>', '<=', '>=', '<', '>', '='):
+            if c_.startswith(pfx):
+                parsed.append((pfx, int(c_[len(pfx):])))
+                break
+        else:
+            parsed.append(('', int(c_)))
+
+    def ens(*a):
+        out, cells = a[-1], a[:-1]
+        n = len(crits)
+        rows = []
+        for r in range(nrows):
+            rows.append(And(*[crit_holds(cells[r * n + k], parsed[k][0], parsed[k][1]) for k in range(n)]))
+        return spec.numeric_result(out, _count(rows))
+    return ens
+
+
+INTCELL = lambda: Xl('Number', 'int', domain=[-1, 0, 1, 5])
+for _crits, _rows in ((('>0', '<5'), 3), (('>0', '<5', '<>1'), 2), (('>=1', '0', '>-1', '<=5'), 2)):
+    UNITS.append(Unit(
+        id=f'C15/statistics.COUNTIFS[{",".join(_crits)};{_rows} rows]', target='xlcalculator.xlfunctions.statistics:COUNTIFS',
+        inputs=[(f'r{r}c{k}', INTCELL()) for r in range(_rows) for k in range(len(_crits))],
+        cases=[Case('COUNTIFS = the number of ROWS in which every column\'s cell satisfies that column\'s criterion (position by position)',
+                    lambda *a: True, countifs_ens(_crits, _rows))],
+        call=countifs_call(False, _crits, _rows), native_call=countifs_call(True, _crits, _rows), bounded_domain_cap=300, max_paths=6000))
